@@ -57,12 +57,12 @@ impl Profile {
             p_multi_dp: 0.0,
         };
         match prop {
-            "C03" => Profile { p_shared_cte: 0.05, p_nested_group: 0.03, ..base },
+            "C03" => Profile { p_multi_dp: 0.06, p_shared_cte: 0.05, p_nested_group: 0.03, ..base },
             "C01" => Profile { p_shared_cte: 0.03, p_nested_group: 0.05, ..base },
             "C09" => Profile { public_keys_only: true, benign_data: true, p_distinct: 0.12, p_row_privacy: 0.15, p_grouped: 0.65, ..base },
             "C04" => Profile { p_nested_group: 0.08, p_nested: 0.0, need_private_key: true, p_grouped: 1.0, p_outer: 0.0, p_distinct: 0.05, ..base },
             "C16" => Profile { benign_data: true, full_catalogue: true, p_public_table: 1.0, p_synthetic: 0.3, ..base },
-            "C02" => Profile { p_nested_group: 0.03, p_shared_cte: 0.08, p_plain: 0.25, p_synthetic: 0.4, p_public_table: 0.5, p_outer: 0.2, ..base },
+            "C02" => Profile { p_multi_dp: 0.04, p_nested_group: 0.03, p_shared_cte: 0.08, p_plain: 0.25, p_synthetic: 0.4, p_public_table: 0.5, p_outer: 0.2, ..base },
             _ => base,
         }
     }
@@ -689,19 +689,13 @@ pub fn generate(seed: u64, run: u64, prop: &str) -> Generated {
             let f1 = *rg.pick(&["sum", "avg", "count"]);
             let f2 = *rg.pick(&["sum", "count", "avg"]);
             let _ = &own_keys;
-            let sql = if rg.chance(0.5) {
-                tags.push("keys:none".into());
-                format!(
-                    "WITH a AS (SELECT {f1}({v1}) AS s FROM {t} AS {al}), b AS (SELECT {f2}({v2}) AS c FROM {t} AS {al}) SELECT a.s AS s, b.c AS c FROM a CROSS JOIN b",
-                    f1 = f1, v1 = v1, f2 = f2, v2 = v2, t = base_t.name, al = a
-                )
-            } else {
-                tags.push("keys:none".into());
-                format!(
-                    "SELECT p.v AS v FROM (SELECT {f1}({v1}) AS v FROM {t} AS {al}) AS p UNION ALL SELECT q.v AS v FROM (SELECT {f2}({v2}) AS v FROM {t} AS {al}) AS q",
-                    f1 = f1, v1 = v1, f2 = f2, v2 = v2, t = base_t.name, al = a
-                )
-            };
+            tags.push("keys:none".into());
+            // union of two DP sub-queries that spend the same budget on the same number of mechanisms
+            let sql = format!(
+                "WITH a AS (SELECT {f1}({v1}) AS v FROM {t} AS {al}), b AS (SELECT {f2}({v2}) AS v FROM {t} AS {al}) SELECT * FROM a {op} SELECT * FROM b",
+                f1 = if rg.chance(0.5) { "count" } else { f1 }, v1 = v1, f2 = if rg.chance(0.5) { "count" } else { f2 }, v2 = v2, t = base_t.name, al = a,
+                op = rg.pick(&["UNION", "UNION ALL"])
+            );
             tags.push("multi_dp".into());
             let query = QuerySpec { from: vec![], where_: vec![], keys: vec![], aggs: vec![], having: None, outer: None, plain: None, cte: None, raw_sql: None, holders_override: None };
             let base = Some((a, base_t.name.clone()));
